@@ -19,7 +19,7 @@ namespace DD
 
 /-! ### printing -/
 
-def showOptInt : Option Int → String
+def dmpShowOptInt : Option Int → String
   | none => "N"
   | some i => toString i
 
@@ -31,7 +31,7 @@ def Roots.show : Roots → String
 def showVars (l : List (String × Nat)) : String :=
   joinWith "," ((sortBy (fun (a b : String × Nat) => a.1 ≤ b.1) l).map fun (v, i) => s!"{v}:{i}")
 
-def PEntry.show (e : PEntry) : String := s!"{e.id}:{e.lvl}:{showOptInt e.lo}:{showOptInt e.hi}"
+def PEntry.show (e : PEntry) : String := s!"{e.id}:{e.lvl}:{dmpShowOptInt e.lo}:{dmpShowOptInt e.hi}"
 
 def showEntries (l : List PEntry) : String :=
   joinWith "," ((sortBy (fun (a b : PEntry) => a.id ≤ b.id) l).map PEntry.show)
@@ -147,7 +147,7 @@ def stepDump (op : String) (args : List String) : Option (M Res) :=
     match parseBool? lo, parseVars lov, parseRoots roots, parseJLines nodes with
     | some lo, some lov, some roots, some nodes => rootsRes (loadJson ⟨lov, roots, nodes⟩ lo)
     | _, _, _, _ => M.throw .other
-  | "assert_consistent", [] => some do assertConsistent; return .unit
+  | "assert_consistent", [] => some do dmpAssertConsistent; return .unit
   | _, _ => none
 
 def kindRes (x : Except Err FileKind) : String :=
